@@ -111,7 +111,7 @@ where
                 continue;
             }
             if *key_bytes >= *end_key_bytes {
-                break;
+                continue;
             }
             if let Some(cache) = self.cache.get(key) {
                 if let Some(value) = cache.latest() {
@@ -122,7 +122,9 @@ where
             }
         }
 
-        Ok(kv_pairs.into_iter().collect())
+        let mut kv_pairs: Vec<(K, V)> = kv_pairs.into_iter().collect();
+        kv_pairs.sort_by_cached_key(|(key, _)| key.encode_vec());
+        Ok(kv_pairs)
     }
 
     /// Returns all keys and values in the database
@@ -148,7 +150,9 @@ where
             }
         }
 
-        Ok(kv_pairs.into_iter().collect())
+        let mut kv_pairs: Vec<(K, V)> = kv_pairs.into_iter().collect();
+        kv_pairs.sort_by_cached_key(|(key, _)| key.encode_vec());
+        Ok(kv_pairs)
     }
 
     /// Set the value for a key
